@@ -30,7 +30,7 @@ func init() {
 
 func runC14(x *Ctx) {
 	x.C.Rule("C14.R1", "tokenize partitions the input: no tail is dropped", 3)
-	x.C.Rule("C14.R2", "each token yields exactly one segment printing as that token, or an error; slice tokens have exactly two parts", 4)
+	x.C.Rule("C14.R2", "each token yields exactly one segment printing as that token, or an error; slice tokens have exactly two parts; quoted lookups are fields", 5)
 	x.C.Rule("C14.R3", "policy tuple positions and arities agree between decoder and encoder", 6)
 
 	if f := x.fn("C14.R1", selPkg+"tokenize"); f != nil {
@@ -40,6 +40,7 @@ func runC14(x *Ctx) {
 		parseAppendRule(x, f)
 	}
 	tupleAgreement(x)
+	packageCodecs(x, "C14.R3", 2, "pkg/policy", "pkg/policy/selector", "pkg/policy/literal", "pkg/args", "pkg/meta")
 }
 
 func tokenizeRule(x *Ctx, f *ssa.Function) {
@@ -276,6 +277,39 @@ func parseAppendRule(x *Ctx, f *ssa.Function) {
 			}
 		}
 		x.C.Obl("C14.R2", "slice-two-parts:Parse", x.pos(f), "a slice segment is only built from a token with exactly one ':' (sliceRegex, every alternative of which contains exactly one ':', or len(parts) == 2)", badS == "" && nS > 0, badS)
+	}
+	// a bracket lookup written in quotes is a field name, whatever it looks like ( ["0"] is the key "0", not index 0 )
+	{
+		badQ, nQ := "", 0
+		for _, p := range ps {
+			if p.End != paths.EndLatch || p.Latch != l.Header || !p.EntersBody(l) {
+				continue
+			}
+			quoted := false
+			for _, f := range p.Facts {
+				if f.Pol && f.Atom.Op == "call" && f.Atom.Name == "strings.HasPrefix" && len(f.Atom.Args) == 2 && f.Atom.Args[1].IsConst(`"\""`) && f.Atom.Args[0].Op == "slice" &&
+					p.HasFact("call[strings.HasSuffix]("+f.Atom.Args[0].String()+`,const("\""))`, true) {
+					quoted = true
+				}
+			}
+			if !quoted {
+				continue
+			}
+			nv := p.LatchValue(sel)
+			if nv == nil || nv.Op != "call" || len(nv.Args) != 2 || nv.Args[1].Op != "varargs" {
+				continue
+			}
+			cell := paths.CellOf(nv.Args[1].Args[0])
+			if cell == nil {
+				continue
+			}
+			nQ++
+			fs := p.FieldStores(cell)
+			if fs["isField"] == nil || !fs["isField"].IsConst("true") {
+				badQ += "a lookup that starts with a double quote yields a segment that is not a field segment (" + describeFields(fs) + ")\n"
+			}
+		}
+		x.C.Obl("C14.R2", "quoted-is-field:Parse", x.pos(f), "a bracket lookup in double quotes always yields a field segment", badQ == "" && nQ > 0, dedupLines(badQ))
 	}
 	// success after the loop returns the accumulated selector
 	okRet := true
